@@ -121,3 +121,60 @@ Definition transport_encrypted (c : tcfg) : bool :=
 Definition read_frame_cfg (c : tcfg) (s : bytes) : verdict := read_frame (transport_encrypted c) s.
 Definition write_message_cfg (c : tcfg) (h : header) (payload : bytes) : bytes :=
   write_message h payload (transport_encrypted c).
+
+(* ---- the per-connection loop serveConn (tcp.go) ----
+   for { readMagicNumber; readMessage; Unmarshal (MessageBatch | Chunk); handler }.
+   Any failure returns from the loop, and the connection worker in Start then
+   closes the connection: nothing after the first bad frame is looked at.  A
+   poison magic is acknowledged (two zero bytes) before returning.  Timeouts are
+   not modelled (a stream that ends = io error = return). *)
+
+(* the reader once more, with the number of bytes left unread on the connection
+   (io.ReadFull consumes whatever is there before failing) *)
+Definition read_frame_ex (enc : bool) (s : bytes) : verdict * N :=
+  if (length s <? 2)%nat then (IOErr, 0)
+  else
+    let m := firstn 2 s in
+    let r := skipn 2 s in
+    if bytes_eqb m poison then (Poison, nlen r)
+    else if negb (bytes_eqb m magic) then (Bad, nlen r)
+    else if (length r <? hdr_len)%nat then (IOErr, 0)
+    else match decode_header (firstn hdr_len r) with
+         | None => (Bad, nlen r - request_header_size)
+         | Some h =>
+           let body := skipn hdr_len r in
+           if h_size h =? 0 then (Bad, nlen body)
+           else if nlen body <? h_size h then (IOErr, 0)
+           else let n := N.to_nat (h_size h) in
+                let buf := firstn n body in
+                if negb enc && negb (crc32 buf =? h_crc h) then (Bad, nlen body - h_size h)
+                else (Delivered h buf (skipn n body), nlen body - h_size h)
+         end.
+
+(* what happens to a delivered frame: payload does not unmarshal (return, nothing
+   handed over) / handed to the handler (continue) / handler refuses (chunks only:
+   handed over, then return) *)
+Inductive dispo := Undecodable | Accepted | Refused.
+
+Fixpoint serve (fuel : nat) (enc : bool) (handle : header -> bytes -> dispo) (s : bytes)
+  : list (header * bytes) * N * bool (* handed over, unread bytes, poison ack sent *) :=
+  match fuel with
+  | O => ([], nlen s, false)
+  | S f =>
+    match read_frame_ex enc s with
+    | (Delivered h p rest, _) =>
+      match handle h p with
+      | Undecodable => ([], nlen rest, false)
+      | Refused => ([(h, p)], nlen rest, false)
+      | Accepted => let '(d, u, a) := serve f enc handle rest in ((h, p) :: d, u, a)
+      end
+    | (Poison, u) => ([], u, true)
+    | (_, u) => ([], u, false)
+    end
+  end.
+
+Definition serve_conn (enc : bool) (handle : header -> bytes -> dispo) (s : bytes) :=
+  serve (S (length s)) enc handle s.
+
+Definition stream_of (enc : bool) (frames : list (header * bytes)) : bytes :=
+  flat_map (fun f => write_message (fst f) (snd f) enc) frames.
